@@ -21,7 +21,7 @@ def gen_strings(ctx):
         for cs in itertools.product(ALPHA, repeat=k):
             out.append(''.join(cs))
     rnd = ctx.rnd
-    extra = ['٣', '8080', '1-2/tcp', '1-2/udp', '65535-65536/tcp', '80/tcp/udp', '80-90-100', ' 80', '80 ', '８０', '80/TCP', '80/tcpx',
+    extra = ['８０８０', '٨٠٨٠', '80８0', '8²', '½', '2000-３０００', '８０/tcp', '80/ｔcp', '1\u200b2', '٣', '8080', '1-2/tcp', '1-2/udp', '65535-65536/tcp', '80/tcp/udp', '80-90-100', ' 80', '80 ', '８０', '80/TCP', '80/tcpx',
              '80/tc', '80/ud', '80/tdp', '80/ucp', '-', '/', '', '0', '00/udp']
     out += extra
     for _ in range(20000 if ctx.thorough else 3000):
